@@ -26,10 +26,15 @@ META["claim"] += " " + 'Round 4: offered subprotocols as list, tuple, iterator a
 
 STATUSES = [100, 101, 101, 101, 101, 200, 204, 300, 304, 400, 401, 403, 404, 426, 500, 503, 999, "1015", "1010", "101x", "0101", "101.0", "10", "1101", "102", "103"]
 UPGRADE = [("websocket", True), ("WebSocket", True), ("websocket, foo", True), ("foo,websocket", True), ("  websocket  ", True),
-           ("h2c", False), ("websockets", False), ("web socket", False), (None, False), ("", False)]
+           ("h2c", False), ("websockets", False), ("web socket", False), (None, False), ("", False),
+           # a continuation line (obsolete line folding) in the middle of the token: never the token "websocket"
+           ("web\r\n socket", False), ("websoc\r\n\tket", False)]
 CONNECTION = [("Upgrade", True), ("upgrade", True), ("keep-alive, Upgrade", True), ("UPGRADE,keep-alive", True),
-              ("close", False), ("keep-alive", False), ("Upgrades", False), (None, False), ("", False)]
-ACCEPT = ["right", "right", "right", "prev-key", "random-key", "truncated", "extended", "empty", "missing", "case-flipped"]
+              ("close", False), ("keep-alive", False), ("Upgrades", False), (None, False), ("", False),
+              ("Up\r\n grade", False), ("keep-alive, Up\r\n  grade", False)]
+ACCEPT = ["right", "right", "right", "right", "prev-key", "random-key", "truncated", "extended", "empty", "missing", "case-flipped",
+          # the right value with characters mixed in / appended that a lenient base64 decoder would skip
+          "with-dot", "with-dash", "with-space", "quoted", "suffix-after-padding", "doubled", "extra-padding", "with-newline-fold"]
 
 
 def rand_case(rng, s):
@@ -71,6 +76,22 @@ def build_response(rng, d, key, prev_key):
         v = ""
     elif a == "case-flipped":
         v = right.swapcase()
+    elif a == "with-dot":
+        v = right[:7] + "." + right[7:]
+    elif a == "with-dash":
+        v = right[:3] + "-" + right[3:11] + "_" + right[11:]
+    elif a == "with-space":
+        v = right[:9] + " " + right[9:]
+    elif a == "quoted":
+        v = '"' + right + '"'
+    elif a == "suffix-after-padding":
+        v = right + "garbage"
+    elif a == "doubled":
+        v = right + right
+    elif a == "extra-padding":
+        v = right + "=="
+    elif a == "with-newline-fold":
+        v = right[:10] + "\r\n " + right[10:]
     else:
         v = None
     if v is not None:
@@ -98,10 +119,10 @@ def verdict(d):
         # complete either outcome is acceptable here (the library may refuse interim responses altogether).
         return "reject" if d["interim"] == "carries-the-headers" else "unjudged"
     up = d["upgrade"]
-    if up is None or "websocket" not in [t.strip().lower() for t in up.split(",")]:
+    if up is None or "\r\n" in up or "websocket" not in [t.strip().lower() for t in up.split(",")]:
         return "reject"
     cn = d["connection"]
-    if cn is None or "upgrade" not in [t.strip().lower() for t in cn.split(",")]:
+    if cn is None or "\r\n" in cn or "upgrade" not in [t.strip().lower() for t in cn.split(",")]:
         return "reject"
     if d["accept"] == "case-flipped":
         return "unjudged"
